@@ -90,23 +90,23 @@ Proof. unfold transport_asked. intros ->. now rewrite !andb_false_r. Qed.
 (* the three stacks implement exactly that, whenever the response has a body on the wire *)
 Lemma respond_spec st c auto r :
   r_cl r <> 0%Z ->
-  respond st c auto false r = delivered r (wants_decode c auto (header_get (r_ce r))).
+  respond st c auto false r = delivered r (wants_decode c auto (content_encoding (r_ce r))).
 Proof.
-  intros Hcl. unfold respond, decide, wants_decode. rewrite asked_gzip_spec.
+  intros Hcl. unfold respond, decide, decide_on, wants_decode. rewrite asked_gzip_spec.
   assert (Hz : (r_cl r =? 0)%Z = false) by (apply Z.eqb_neq; exact Hcl).
   destruct st.
   - unfold decide_h1. rewrite Hz.
     destruct (q_head c) eqn:Hh; simpl; [reflexivity|].
-    destruct (transport_asked c && equal_fold (header_get (r_ce r)) tok_gzip); [reflexivity|].
+    destruct (transport_asked c && equal_fold (content_encoding (r_ce r)) tok_gzip); [reflexivity|].
     destruct auto; [apply apply_auto_action|reflexivity].
   - unfold decide_h2.
     destruct (q_head c) eqn:Hh; simpl; [reflexivity|].
-    destruct (transport_asked c && equal_fold (header_get (r_ce r)) tok_gzip); [reflexivity|].
+    destruct (transport_asked c && equal_fold (content_encoding (r_ce r)) tok_gzip); [reflexivity|].
     destruct auto; [apply apply_auto_action|reflexivity].
   - unfold decide_h3.
     destruct (q_head c) eqn:Hh.
     + rewrite (transport_asked_head c Hh). simpl. now rewrite andb_false_r.
-    + destruct (transport_asked c && equal_fold (header_get (r_ce r)) tok_gzip); [reflexivity|].
+    + destruct (transport_asked c && equal_fold (content_encoding (r_ce r)) tok_gzip); [reflexivity|].
       destruct auto; simpl; [apply apply_auto_action|reflexivity].
 Qed.
 
@@ -115,14 +115,14 @@ Qed.
 Lemma respond_bodiless_h1 c auto ended r :
   q_head c = true \/ r_cl r = 0%Z -> respond H1 c auto ended r = r.
 Proof.
-  intros H. unfold respond, decide, decide_h1.
+  intros H. unfold respond, decide, decide_on, decide_h1.
   destruct H as [-> | ->]; simpl; [reflexivity|]. now rewrite andb_false_r.
 Qed.
 
 Lemma respond_bodiless_h2 c auto ended r :
   q_head c = true \/ ended = true -> respond H2 c auto ended r = r.
 Proof.
-  intros H. unfold respond, decide, decide_h2.
+  intros H. unfold respond, decide, decide_on, decide_h2.
   destruct H as [-> | ->]; simpl; [reflexivity|]. now destruct (q_head c).
 Qed.
 
@@ -131,19 +131,19 @@ Proof.
   intros Hh. destruct st.
   - apply respond_bodiless_h1; now left.
   - apply respond_bodiless_h2; now left.
-  - unfold respond, decide, decide_h3. rewrite asked_gzip_spec, (transport_asked_head c Hh), Hh.
+  - unfold respond, decide, decide_on, decide_h3. rewrite asked_gzip_spec, (transport_asked_head c Hh), Hh.
     simpl. now rewrite andb_false_r.
 Qed.
 
 (* when nothing is to be decoded the response is returned as received - with or without a body *)
 Lemma respond_none st c auto ended r :
-  wants_decode c auto (header_get (r_ce r)) = None -> respond st c auto ended r = r.
+  wants_decode c auto (content_encoding (r_ce r)) = None -> respond st c auto ended r = r.
 Proof.
   intros H. unfold wants_decode in H.
   destruct (q_head c) eqn:Hh; [now apply respond_head|].
-  destruct (transport_asked c && equal_fold (header_get (r_ce r)) tok_gzip) eqn:Hg; [discriminate|].
-  unfold respond, decide. rewrite asked_gzip_spec.
-  assert (Ha : apply_action (if auto then auto_action (header_get (r_ce r)) else Untouched) r = r).
+  destruct (transport_asked c && equal_fold (content_encoding (r_ce r)) tok_gzip) eqn:Hg; [discriminate|].
+  unfold respond, decide, decide_on. rewrite asked_gzip_spec.
+  assert (Ha : apply_action (if auto then auto_action (content_encoding (r_ce r)) else Untouched) r = r).
   { destruct auto; [|reflexivity]. rewrite apply_auto_action, H. reflexivity. }
   destruct st.
   - unfold decide_h1. rewrite Hh, Hg. simpl.
@@ -159,9 +159,9 @@ Lemma otherwise_untouched st c auto ended r :
   \/ (auto = false /\ q_range c <> [])                             (* Range request *)
   \/ (auto = false /\ q_disable c = true)                          (* compression disabled *)
   \/ r_ce r = []                                                   (* no Content-Encoding *)
-  \/ (new_compress_reader (header_get (r_ce r)) = None /\
-      equal_fold (header_get (r_ce r)) tok_gzip = false)           (* unsupported coding *)
-  \/ (auto = false /\ equal_fold (header_get (r_ce r)) tok_gzip = false) (* not the coding asked for *)
+  \/ (new_compress_reader (content_encoding (r_ce r)) = None /\
+      equal_fold (content_encoding (r_ce r)) tok_gzip = false)           (* unsupported coding *)
+  \/ (auto = false /\ equal_fold (content_encoding (r_ce r)) tok_gzip = false) (* not the coding asked for *)
   ->
   respond st c auto ended r = r.
 Proof.
@@ -184,6 +184,70 @@ Lemma stacks_agree c auto r :
   respond H1 c auto false r = respond H2 c auto false r /\
   respond H2 c auto false r = respond H3 c auto false r.
 Proof. intros H. rewrite !respond_spec by exact H. split; reflexivity. Qed.
+
+(* ---------- several Content-Encoding lines are one list ---------- *)
+
+Lemma content_encoding_single v : content_encoding [v] = v.
+Proof. reflexivity. Qed.
+
+Lemma content_encoding_none : content_encoding [] = [].
+Proof. reflexivity. Qed.
+
+Definition comma : byte := x2c.
+
+Lemma join_has_comma a b rest : In comma (content_encoding (a :: b :: rest)).
+Proof.
+  unfold content_encoding. cbn [join_comma]. apply in_or_app. right.
+  change (bs ", ") with [x2c; x20]. left. reflexivity.
+Qed.
+
+Lemma token_no_comma e : ~ In comma (token e).
+Proof. destruct e; vm_compute; intuition discriminate. Qed.
+
+Lemma comma_not_gzip ce : In comma ce -> equal_fold ce tok_gzip = false.
+Proof.
+  intros H. destruct (equal_fold ce tok_gzip) eqn:E; [|reflexivity].
+  apply equal_fold_iff in E.
+  assert (Hin : In (lower_byte comma) (to_lower ce)) by (unfold to_lower; now apply in_map).
+  rewrite E in Hin. vm_compute in Hin. intuition discriminate.
+Qed.
+
+Lemma comma_not_supported ce : In comma ce -> new_compress_reader ce = None.
+Proof.
+  intros H. destruct (new_compress_reader ce) as [e|] eqn:E; [|reflexivity].
+  apply new_compress_reader_iff in E. subst. now apply token_no_comma in H.
+Qed.
+
+Lemma wants_decode_list c auto ce : In comma ce -> wants_decode c auto ce = None.
+Proof.
+  intros H. unfold wants_decode. rewrite (comma_not_gzip _ H), (comma_not_supported _ H).
+  rewrite andb_false_r. destruct (q_head c), auto; reflexivity.
+Qed.
+
+(* two or more Content-Encoding lines: the response is returned as received, whatever the lines say *)
+Lemma multi_line_untouched st c auto ended r :
+  2 <= length (r_ce r) -> respond st c auto ended r = r.
+Proof.
+  intros H. apply respond_none. apply wants_decode_list.
+  destruct (r_ce r) as [|a [|b rest]]; simpl in H; try lia. apply join_has_comma.
+Qed.
+
+(* the code before the fix decided on the first line and deleted all: a body encoded twice
+   (Content-Encoding: gzip / Content-Encoding: gzip) was delivered once-decoded - still gzip data -
+   under headers that no longer name any coding *)
+Lemma first_line_refuted (compress : enc -> bytes -> bytes) (p : bytes) :
+  let c := {| q_disable := false; q_ae := []; q_range := []; q_head := false |} in
+  let r := {| r_ce := [bs "gzip"; bs "gzip"]; r_clh := []; r_other := []; r_cl := (-1)%Z; r_unc := false;
+              r_body := Raw (compress Gzip (compress Gzip p)) |} in
+  forall st,
+  (r_ce (respond_first_line st c false false r) = [] /\
+   r_body (respond_first_line st c false false r) = Lazy Gzip (compress Gzip (compress Gzip p))) /\
+  respond st c false false r = r.
+Proof.
+  cbv zeta. intros st. split.
+  - destruct st; vm_compute; split; reflexivity.
+  - apply multi_line_untouched. simpl. lia.
+Qed.
 
 (* ---------- readers ---------- *)
 
@@ -258,7 +322,7 @@ Section Codec.
 
   Lemma decoded_is_original st c auto r e p sizes :
     r_cl r <> 0%Z ->
-    wants_decode c auto (header_get (r_ce r)) = Some e ->
+    wants_decode c auto (content_encoding (r_ce r)) = Some e ->
     r_body r = Raw (compress e p) ->
     Forall (fun n => 0 < n) sizes -> length p < length sizes ->
     let r' := respond st c auto false r in
@@ -275,7 +339,7 @@ Section Codec.
   (* corrupt data: whatever the decoder reports at the end is what the caller's reads end with *)
   Lemma decode_error_surfaces st c auto r e sizes :
     r_cl r <> 0%Z ->
-    wants_decode c auto (header_get (r_ce r)) = Some e ->
+    wants_decode c auto (content_encoding (r_ce r)) = Some e ->
     Forall (fun n => 0 < n) sizes ->
     length (s_data (dec e (wire_of (r_body r)))) < length sizes ->
     fst (drain dec sizes (open_body (r_body (respond st c auto false r)))) =
